@@ -389,10 +389,9 @@ Section GenAcyclic.
     intro H. inversion H; subst cs; clear H.
     destruct (mklt_strict (posX xb rs)) as [T I].
     assert (F : Forall (fwd (mklt (posX xb rs)))
-                  (rev (out (if b then run_nbr (mklt (posX xb rs)) (fun i => width xb (nthr rs i))
-                                       (fun u v => overlapX xb (nthr rs u) (nthr rs v))
-                                       (fun u v => overlapY yb (nthr rs u) (nthr rs v)) (length rs) sorted_evs
-                             else run_plain (mklt (posX xb rs)) (fun i => width xb (nthr rs i)) (length rs) sorted_evs)))).
+                  (rev (out (if b then run_nbr (mklt (posX xb rs)) (lenOf (width xb) rs)
+                                       (ovOf (overlapX xb) rs) (ovOf (overlapY yb) rs) (length rs) sorted_evs
+                             else run_plain (mklt (posX xb rs)) (lenOf (width xb) rs) (length rs) sorted_evs)))).
     { apply Forall_rev. destruct b.
       - apply (run_nbr_ok _ T). 
       - apply (run_plain_ok _ T). }
@@ -407,7 +406,7 @@ Section GenAcyclic.
     intro H. inversion H; subst cs; clear H.
     destruct (mklt_strict (posY yb rs)) as [T I].
     assert (F : Forall (fwd (mklt (posY yb rs)))
-                  (rev (out (run_plain (mklt (posY yb rs)) (fun i => height yb (nthr rs i)) (length rs) sorted_evs)))).
+                  (rev (out (run_plain (mklt (posY yb rs)) (lenOf (height yb) rs) (length rs) sorted_evs)))).
     { apply Forall_rev. apply (run_plain_ok _ T). }
     split; [exact F | exact (fwd_acyclic _ T I _ F)].
   Qed.
